@@ -26,6 +26,9 @@ type Verifier struct {
 	idMu    sync.Mutex
 	repo    string
 	ourPkgs map[string]bool
+
+	allocMu   sync.Mutex
+	allocMemo map[*ssa.Function]*allocSet
 }
 
 func (V *Verifier) isOurPkg(p *types.Package) bool {
@@ -338,6 +341,9 @@ func (V *Verifier) modifiesNames(ex *Exec, spec *FuncSpec, c *ssa.CallCommon) []
 	if spec.Attrs["pure"] != "true" {
 		out = append(out, "$nextref")
 		ex.noteHeap("$nextref", SInt)
+		if _, touched := ex.heapSort["$typeof"]; touched {
+			out = append(out, "$typeof")
+		}
 	}
 	if spec.Attrs["maypanic"] == "true" {
 		out = append(out, "$panicking")
